@@ -43,7 +43,8 @@ PROPS = {
          'monitor_props': ['C09'],
          'rule': 'engine fault kinds {error, INVALID, SYNCING, ACCEPTED, missing payload id, timeout} x call sites {forkchoice while proposing, getPayload, newPayload while checking, newPayload and forkchoice at end of block} on the real application (state on disk): committed or not, head before/after, reopen from disk and retry compared with a fault-free run; plus the proposal mutations of C08 for the head-step relation, and (state on disk) proposals that ProcessProposal rejected forced through FinalizeBlock without commit to observe the block message alone, then discarded by a restart; distinct = distinct (phase, fault kind)',
          'assumptions': ['the fake engine is the only execution layer; timeouts are the 1.2 s / 2 s context deadlines of the keeper']},
- 'C10': {'runs': runs([{'family': 'ante', 'bin': 'ah', 'n': 400, 'shards': 2}], [{'family': 'ante', 'bin': 'ah', 'n': 4000, 'shards': 8}]),
+ 'C10': {'runs': runs([{'family': 'ante', 'bin': 'ah', 'n': 400, 'shards': 2}, {'family': 'goatblock', 'bin': 'ah', 'n': 150, 'shards': 1, 'tag': '1', 'seed_off': 9}],
+                      [{'family': 'ante', 'bin': 'ah', 'n': 4000, 'shards': 8}, {'family': 'goatblock', 'bin': 'ah', 'n': 2000, 'shards': 8, 'tag': '1', 'seed_off': 9}]),
          'monitor_props': ['C10'],
          'rule': 'every message type in the application interface registry x {CheckTx, ReCheck, PrepareProposal, ProcessProposal, FinalizeBlock} x signer {relayer proposer, validator, other} x memo {empty, x} x timeout {0, h-1, h, h+1} x bad signature, plus all ordered pairs of message types in one tx, through the real app.New behind ABCI with a fake engine; distinct = distinct (variant, mode)',
          'assumptions': ['signature / sequence / pubkey decorators are cosmos-sdk (modelled as one boolean a_sig_ok); ReCheckTx does not re-verify signatures by design']},
@@ -85,10 +86,10 @@ PROPS = {
          'partial': 'C15_queue_evolution covers every operation of every history (the queues move only by the three allowed moves); the per-entry statement "released at a block time >= request time + duration" is its immediate consequence together with C15_delay_and_exit and is additionally checked end-to-end by the implementation-side monitor; it is not restated as a trace theorem with request-time ghosts',
          'assumptions': ['block times non-decreasing (CometBFT BFT time)', 'ExitingDuration >= UnlockDuration (Params.Validate)']},
  'C04': {
-   'runs': runs([{'family': 'merkle', 'n': 3000, 'shards': 16}],
-                [{'family': 'merkle', 'n': 60000, 'shards': 64}]),
+   'runs': runs([{'family': 'merkle', 'n': 3000, 'shards': 16}, {'family': 'bridge', 'n': 160, 'shards': 16, 'param': 'proj=C04,ops=45', 'tag': '1'}],
+                [{'family': 'merkle', 'n': 60000, 'shards': 64}, {'family': 'bridge', 'n': 3000, 'shards': 64, 'param': 'proj=C04,ops=70', 'tag': '1'}]),
    'monitor_props': ['C04'],
-   'rule': 'random Bitcoin merkle trees (1..600 leaves, duplicate-last padding) x {genuine, aliased position i+k*2^d, 2^31, 2^32-1, shifted, truncated, inner node, extended, permuted, bit-flipped, wrong root, wrong sizes, ragged, coinbase under 2^d.., duplicated last leaf, empty path}; distinct = distinct (leaf,root,path,position) with a non-empty path',
+   'rule': 'the two callers of the proof check (deposit verification, withdrawal finalisation) through the bridge family, including blocks with a single transaction (empty path) presented at another position and the last transaction of an odd-sized block (whose sibling is itself) ; random Bitcoin merkle trees (1..600 leaves, duplicate-last padding) x {genuine, aliased position i+k*2^d, 2^31, 2^32-1, shifted, truncated, inner node, extended, permuted, bit-flipped, wrong root, wrong sizes, ragged, coinbase under 2^d.., duplicated last leaf, empty path}; distinct = distinct (leaf,root,path,position) with a non-empty path',
    'assumptions': ['binding theorems conclude "... or an explicit hash collision is exhibited" (no idealised hash assumed)',
                    'the executable SHA-256 in Crypto/Sha256.v is validated against crypto/sha256 by this very comparison'],
    'trusted_base': ['Crypto/Sha256.v uses primitive Uint63 operations under vm_compute (correspondence only; no theorem unfolds it except the two closed Examples)'],
@@ -98,7 +99,7 @@ PROPS = {
          'rule': 'deposit addresses: key type {ECDSA, Schnorr; valid, short, bad prefix, off-curve} x version {0,1} x network {4 configured} x EVM address / magic prefix lengths, through the builders AND Query/DepositAddress of a real keeper, then the script a wallet derives from the returned string is fed to the verifiers with the same and with another key / EVM address; verifiers on independently built genuine scripts with 8 mutations; withdrawal address strings of 12 kinds (p2pkh, p2sh, p2wpkh, p2wsh, p2tr, non-standard witness programs v0..16 x 8 lengths, wrong checksum flavour, p2pk hex, bad base58 lengths / versions, random bytes, leading zeros) from 5 source networks under 4 configured networks with 9 string mutations; distinct = distinct (kind, mutation, outcome)',
          'assumptions': ['SHA-256 / HASH160 / the taproot tweak are abstract functions with fixed output length in the theorems; "for no other" is concluded up to an exhibited collision', 'elliptic-curve facts (x-only key parses, tweaked output key, HASH160) are data supplied by the harness from the real libraries',
                          'observation outside the property: btcd decodes a witness-v1 address with a 20-byte program (non-standard) as P2WPKH; counted in the distribution, not a violation of the property as stated'],
-         'partial': 'the bech32 / bech32m string layer is proved (C17_bech32_round_trip, checksum algebra included); the 8-to-5-bit regrouping and base58check round trips are validated byte-exactly by the differential run and the decode-oracle monitor, not by theorems'},
+         'partial': 'the segwit string codec is proved end to end (C17_bech32_round_trip with the checksum algebra, C17_regroup_round_trip, C17_segwit_address_round_trip); the base58check codec of legacy withdrawal addresses is validated byte-exactly by the differential run and the decode-oracle monitor, not by a theorem'},
  'C18': {'runs': runs([{'family': 'locking', 'n': 160, 'shards': 16, 'param': 'proj=C18,blocks=14'}, {'family': 'bridge', 'n': 120, 'shards': 16, 'param': 'proj=C18,ops=45', 'tag': '1'}, {'family': 'export', 'bin': 'ah', 'n': 16, 'shards': 1, 'tag': '2'}],
                       [{'family': 'locking', 'n': 3000, 'shards': 64, 'param': 'proj=C18,blocks=24'}, {'family': 'bridge', 'n': 2500, 'shards': 64, 'param': 'proj=C18,ops=70', 'tag': '1'}, {'family': 'export', 'bin': 'ah', 'n': 300, 'shards': 2, 'tag': '2'}]),
          'monitor_props': ['C18'],
@@ -113,10 +114,10 @@ PROPS = {
          'assumptions': ['a proposal rejected by ProcessProposal is never finalised (honest majority): rejected proposals are not forced into FinalizeBlock', 'messages that cannot be serialised (nil element of a repeated field) are not inputs a node can receive'],
          'partial': 'crash-freedom of the Go process itself is an implementation-level fact established by the fuzz run (a crash is detected through current.json); the Coq theorems are the model-level statements that failures change nothing and where the modelled panics are'},
  'C20': {
-   'runs': runs([{'family': 'params', 'n': 4000, 'shards': 8}],
-                [{'family': 'params', 'n': 120000, 'shards': 32}]),
+   'runs': runs([{'family': 'params', 'n': 4000, 'shards': 8}, {'family': 'bridge', 'n': 120, 'shards': 16, 'param': 'proj=C20,ops=45', 'tag': '1'}],
+                [{'family': 'params', 'n': 120000, 'shards': 32}, {'family': 'bridge', 'n': 3000, 'shards': 64, 'param': 'proj=C20,ops=70', 'tag': '1'}]),
    'monitor_props': ['C20'],
-   'rule': 'random safe initial params x 1..6 request lists of DepositTax/Confirmation/MinDeposit with boundary-biased 64-bit values; distinct = distinct request histories',
-   'assumptions': ['initial parameters satisfy the bounds (genesis validation is outside this property)'],
+   'rule': 'random safe initial params x 1..6 request lists of DepositTax/Confirmation/MinDeposit with boundary-biased 64-bit values, then 12 probes of genesis validation (Params.Validate on boundary tuples) per case; distinct = distinct request histories ; ' + BRIDGE_RULE + ' (projection: parameters, deposits and the amounts / taxes of the dequeued deposit transactions)',
+   'assumptions': ['initial parameters satisfy the bounds or at least genesis validation (C20_genesis_validation states what that gives: the rate may then be exactly 100 %, a gap of Params.Validate recorded as an observation)'],
  },
 }
